@@ -1,87 +1,199 @@
-"""Exploratory canonical form of a flowmark/marko document tree."""
+"""Canonical semantic form of a Marko/flowmark document tree (DESIGN §2.3).
+
+Compared: block kinds, order and nesting; heading levels; list kind, bullet char / start number; task state; quote vs
+alert(type); code lang/extra/content; table alignments and cells; rules; definitions (label, dest, title content);
+footnote labels; inline structure (em/strong/del/link/img/code/html/autolink/url/fnref/hard break) and text up to runs of
+whitespace and Marko's CJK-Latin spacing. NOT compared: blank lines / list tightness (unless tight=True), ordered-list
+delimiter, bullet-list marker is compared, title quote style.
+"""
+
+from __future__ import annotations
+
 import re
 from textwrap import dedent
+
 from marko import block, inline
 from marko.ext import footnote
 from marko.ext.gfm import elements as gfm
-from flowmark.formats.flowmark_markdown import flowmark_markdown
-from flowmark.formats.frontmatter import split_frontmatter
-from flowmark.linewrapping.tag_handling import preprocess_tag_block_spacing
 from marko.ext.pangu import PANGU_RE
 
-def parse(text):
+_WS = re.compile(r"\s+")
+
+
+def read_in(text: str):
+    """flowmark's documented reading of its *input*: frontmatter split, CRLF, dedent, strip, tag-line blank lines."""
+    from flowmark.formats.flowmark_markdown import flowmark_markdown
+    from flowmark.formats.frontmatter import split_frontmatter
+    from flowmark.linewrapping.tag_handling import preprocess_tag_block_spacing
+
     fm, content = split_frontmatter(text)
-    if fm: text = content
-    text = dedent(text).strip()
+    if fm:
+        text = content
+    text = dedent(text.replace("\r\n", "\n")).strip()
     text = text.strip() + "\n"
     text = preprocess_tag_block_spacing(text)
     return fm, flowmark_markdown().parse(text)
 
-def ws(s):
-    s = re.sub(PANGU_RE, " ", s)
-    return re.sub(r"\s+", " ", s)
 
-def canon_inlines(children):
-    out = []
-    def text(s):
-        if out and isinstance(out[-1], str): out[-1] += s
-        else: out.append(s)
+def parse(text: str):
+    return read_in(text)
+
+
+def read_out(text: str):
+    """A plain reader for *outputs*: the same GFM parser, no flowmark pre-processing (other tools read the output)."""
+    from flowmark.formats.flowmark_markdown import flowmark_markdown
+
+    return flowmark_markdown().parse(text)
+
+
+def ws(s: str) -> str:
+    s = re.sub(PANGU_RE, " ", s)
+    return _WS.sub(" ", s)
+
+
+def _title(t):
+    return t
+
+
+def _def_title(t):
+    """Marko keeps the raw delimiter pair on link *definition* titles."""
+    if t is None:
+        return None
+    if len(t) >= 2 and ((t[0] == t[-1] and t[0] in "\"'") or (t[0] == "(" and t[-1] == ")")):
+        t = t[1:-1]
+    return re.sub(r"\\([!-/:-@\[-`{-~])", r"\1", t)
+
+
+def canon_inlines(children) -> tuple:
+    out: list = []
+
+    def text(s: str) -> None:
+        if out and isinstance(out[-1], str):
+            out[-1] += s
+        else:
+            out.append(s)
+
     for c in children:
-        if isinstance(c, inline.RawText): text(c.children)
-        elif isinstance(c, inline.Literal): text(c.children)
+        if isinstance(c, inline.RawText):
+            text(c.children)
+        elif isinstance(c, inline.Literal):
+            text(c.children)
         elif isinstance(c, inline.LineBreak):
-            if c.soft: text(" ")
-            else: out.append(("br",))
-        elif isinstance(c, inline.CodeSpan): out.append(("code", ws(c.children)))
-        elif isinstance(c, inline.InlineHTML): out.append(("html", ws(c.children)))
-        elif isinstance(c, gfm.Url): out.append(("url", c.dest))
-        elif isinstance(c, inline.AutoLink): out.append(("autolink", c.dest))
-        elif isinstance(c, inline.StrongEmphasis): out.append(("strong", canon_inlines(c.children)))
-        elif isinstance(c, inline.Emphasis): out.append(("em", canon_inlines(c.children)))
-        elif isinstance(c, gfm.Strikethrough): out.append(("del", canon_inlines(c.children)))
-        elif isinstance(c, inline.Image): out.append(("img", c.dest, c.title, canon_inlines(c.children)))
-        elif isinstance(c, inline.Link): out.append(("link", c.dest, c.title, canon_inlines(c.children)))
-        elif isinstance(c, footnote.FootnoteRef): out.append(("fnref", c.label))
-        else: out.append(("?", type(c).__name__, repr(getattr(c, "children", None))))
-    res = []
-    for o in out:
-        if isinstance(o, str):
-            o = ws(o)
-        res.append(o)
-    # strip leading/trailing ws of the whole sequence
-    if res and isinstance(res[0], str): res[0] = res[0].lstrip()
-    if res and isinstance(res[-1], str): res[-1] = res[-1].rstrip()
-    # whitespace adjacent to hard break is insignificant
+            if c.soft:
+                text(" ")
+            else:
+                out.append(("br",))
+        elif isinstance(c, inline.CodeSpan):
+            out.append(("code", _WS.sub(" ", c.children)))
+        elif isinstance(c, inline.InlineHTML):
+            out.append(("html", _WS.sub(" ", c.children)))
+        elif isinstance(c, gfm.Url):
+            out.append(("url", c.dest))
+        elif isinstance(c, inline.AutoLink):
+            out.append(("autolink", c.dest))
+        elif isinstance(c, inline.StrongEmphasis):
+            out.append(("strong", canon_inlines(c.children)))
+        elif isinstance(c, inline.Emphasis):
+            out.append(("em", canon_inlines(c.children)))
+        elif isinstance(c, gfm.Strikethrough):
+            out.append(("del", canon_inlines(c.children)))
+        elif isinstance(c, inline.Image):
+            out.append(("img", c.dest, _title(c.title), canon_inlines(c.children)))
+        elif isinstance(c, inline.Link):
+            out.append(("link", c.dest, _title(c.title), canon_inlines(c.children)))
+        elif isinstance(c, footnote.FootnoteRef):
+            out.append(("fnref", c.label))
+        else:
+            out.append(("?", type(c).__name__, repr(getattr(c, "children", None))))
+    return finish_inlines(out)
+
+
+def finish_inlines(out: list) -> tuple:
+    """Normalise a list of inline items in which plain text is a bare str: collapse whitespace, trim the ends and
+    around hard breaks, and wrap text as ("t", str) so that text is distinguishable from literal fields."""
+    res = [ws(o) if isinstance(o, str) else o for o in out]
+    if res and isinstance(res[0], str):
+        res[0] = res[0].lstrip()
+    if res and isinstance(res[-1], str):
+        res[-1] = res[-1].rstrip()
     for i, o in enumerate(res):
         if o == ("br",):
-            if i > 0 and isinstance(res[i-1], str): res[i-1] = res[i-1].rstrip()
-            if i + 1 < len(res) and isinstance(res[i+1], str): res[i+1] = res[i+1].lstrip()
-    return tuple(o for o in res if o != "")
+            if i > 0 and isinstance(res[i - 1], str):
+                res[i - 1] = res[i - 1].rstrip()
+            if i + 1 < len(res) and isinstance(res[i + 1], str):
+                res[i + 1] = res[i + 1].lstrip()
+    return tuple(("t", o) if isinstance(o, str) else o for o in res if o != "")
 
-def canon_block(b):
-    if isinstance(b, block.BlankLine): return None
-    if isinstance(b, (block.Heading, block.SetextHeading)): return ("h", b.level, canon_inlines(b.children))
+
+def map_text(node, fn):
+    """Apply fn to every ("t", str) leaf of a canonical tree."""
+    if isinstance(node, tuple):
+        if len(node) == 2 and node[0] == "t" and isinstance(node[1], str):
+            return ("t", fn(node[1]))
+        return tuple(map_text(c, fn) for c in node)
+    return node
+
+
+def canon_block(b, tight: bool = False):
+    if isinstance(b, block.BlankLine):
+        return None
+    if isinstance(b, (block.Heading, block.SetextHeading)):
+        return ("h", b.level, canon_inlines(b.children))
     if isinstance(b, block.Paragraph):
-        chk = getattr(b, "checked", None)
-        return ("p", chk, canon_inlines(b.children))
+        return ("p", getattr(b, "checked", None), canon_inlines(b.children))
     if isinstance(b, block.List):
-        return ("list", b.ordered, b.start if b.ordered else b.bullet, b.tight, tuple(canon_blocks(i.children) for i in b.children))
-    if isinstance(b, gfm.Alert): return ("alert", b.alert_type, canon_blocks(b.children))
-    if isinstance(b, block.Quote): return ("quote", canon_blocks(b.children))
+        items = tuple(canon_blocks(i.children, tight) for i in b.children)
+        key = ("start", b.start) if b.ordered else ("bullet", b.bullet)
+        return ("list", b.ordered, key, items) + ((("tight", b.tight),) if tight else ())
+    if isinstance(b, gfm.Alert):
+        return ("alert", b.alert_type, canon_blocks(b.children, tight))
+    if isinstance(b, block.Quote):
+        return ("quote", canon_blocks(b.children, tight))
     if isinstance(b, (block.FencedCode, block.CodeBlock)):
         return ("code", getattr(b, "lang", ""), getattr(b, "extra", ""), b.children[0].children.rstrip("\n"))
-    if isinstance(b, block.ThematicBreak): return ("hr",)
-    if isinstance(b, block.LinkRefDef): return ("def", b.label, b.dest, b.title)
-    if isinstance(b, footnote.FootnoteDef): return ("fndef", b.label, canon_blocks(b.children))
+    if isinstance(b, block.ThematicBreak):
+        return ("hr",)
+    if isinstance(b, block.LinkRefDef):
+        return ("def", b.label, b.dest, _def_title(b.title))
+    if isinstance(b, footnote.FootnoteDef):
+        return ("fndef", b.label, canon_blocks(b.children, tight))
     if isinstance(b, gfm.Table):
         aligns = tuple(c.align for c in b.children[0].children)
         return ("table", aligns, tuple(tuple(canon_inlines(c.children) for c in r.children) for r in b.children))
-    if isinstance(b, block.HTMLBlock): return ("htmlblock", b.body)
+    if isinstance(b, block.HTMLBlock):
+        return ("htmlblock", b.body)
     return ("?", type(b).__name__)
 
-def canon_blocks(children):
-    return tuple(x for x in (canon_block(c) for c in children) if x is not None)
 
-def canon_doc(text):
-    fm, d = parse(text)
-    return (fm, canon_blocks(d.children))
+def canon_blocks(children, tight: bool = False) -> tuple:
+    return tuple(x for x in (canon_block(c, tight) for c in children) if x is not None)
+
+
+def canon_in(text: str, tight: bool = False) -> tuple:
+    fm, d = read_in(text)
+    return (fm, canon_blocks(d.children, tight))
+
+
+def canon_out(text: str, tight: bool = False) -> tuple:
+    """Canonical form of an output; a frontmatter block is split off the same way."""
+    from flowmark.formats.frontmatter import split_frontmatter
+
+    fm, content = split_frontmatter(text)
+    body = content if fm else text
+    return (fm, canon_blocks(read_out(body).children, tight))
+
+
+def first_diff(a, b, path=()):
+    """Path and values of the first difference between two canonical trees."""
+    if type(a) is not type(b):
+        return path, a, b
+    if isinstance(a, tuple):
+        for i, (x, y) in enumerate(zip(a, b)):
+            d = first_diff(x, y, path + (i,))
+            if d:
+                return d
+        if len(a) != len(b):
+            n = min(len(a), len(b))
+            return path + (n,), a[n:] , b[n:]
+        return None
+    return None if a == b else (path, a, b)
